@@ -119,6 +119,8 @@ ReadProgs == {[kind |-> "read", src |-> s, bytes |-> b, reader |-> r, pos |-> p]
                 p \in (IF Quick THEN {0, 9, 16} ELSE 0 .. 17)}
              \cup {[kind |-> "read", src |-> s, bytes |-> b, reader |-> r, pos |-> 0] :
                      s \in {"mp", "ipa"}, b \in {"valid", "trail1"}, r \in {"err@0", "err@1", "err@31", "err@32", "err@33", "err@543", "err@544", "err@545", "err@575", "err@576", "err@577"}}
+(* the final scalar against r limb by limb: all 27 patterns of limbs 2, 1, 0 (minus one / equal / plus one) under an equal top limb *)
+ScalarPatProgs == {[kind |-> "read", src |-> s, bytes |-> "scalar_pat", reader |-> "whole", pos |-> p] : s \in {"mp", "ipa"}, p \in 0 .. 26}
 WriteProgs == {[kind |-> "write", src |-> s, fault |-> f] : s \in {"mp", "ipa"}, f \in 0 .. 19}
 
 (* structured polynomials (unit vector, zero halves) at a few points: cheap for the reference, they have few non-zero terms *)
@@ -129,7 +131,7 @@ IpaZeroProgs == {[kind |-> "ipa", label |-> "p", poly |-> pl, point |-> pt, resu
                    pl \in {PolyTab[3], PolyTab[6]}, pt \in (IF Quick THEN {"3", "256"} ELSE {"0", "3", "255", "256", "r-1", "rnd1"})}
 Progs == IF Part \in {"mp_honest", "mp_cpu", "mp_perturb", "mp_arrival"} THEN MpProgs
          ELSE IF Part \in {"ipa", "ipa_few"} THEN SetToSeq(IpaProgs \cup IpaHalfProgs \cup IpaZeroProgs)
-         ELSE IF Part = "codec" THEN SetToSeq(ReadProgs \cup WriteProgs)
+         ELSE IF Part = "codec" THEN SetToSeq(ReadProgs \cup ScalarPatProgs \cup WriteProgs)
          ELSE MpProgs \o SetToSeq(IpaProgs) \o SetToSeq(ReadProgs \cup WriteProgs)
 VARIABLE done
 Init == done = FALSE
